@@ -32,9 +32,9 @@ ASSUMPTIONS = [
 ]
 PROBES = ["fault_free_runs", "files_structurally_compared", "adjusted_rules_masked", "props_masked", "crash_points_enumerated",
           "crash_mid_write", "fault:eacces-out", "fault:enospc-out", "fault:eacces-report", "fault:enospc-report",
-          "fault:eacces-in", "fault:eio-in", "dir_invocation", "file_invocation", "cwd_is_tree", "bystanders_checked",
+          "fault:eacces-in", "fault:eio-in", "fault:eio-close-out", "dir_invocation", "file_invocation", "cwd_is_tree", "bystanders_checked",
           "feat:opaque-atrules", "feat:odd-strings", "feat:vendor-hacks", "feat:star-hack", "feat:crlf", "feat:bom", "feat:cdo-cdc",
-          "feat:non-ascii", "feat:nesting", "feat:vars", "feat:unicode-seps", "feat:dup-root", "feat:nested-root", "glue_comment_needed", "report_written", "stale_output_overwritten",
+          "feat:non-ascii", "feat:nesting", "feat:vars", "feat:unicode-seps", "feat:dup-root", "feat:nested-root", "feat:dup-selectors", "noarg_invocation", "glue_comment_needed", "report_written", "stale_output_overwritten",
           "cm_named_stylesheet_as_file_argument", "cm_named_stylesheet_as_bystander"]
 
 C09_FEATURES = gen.ALL_FEATURES
@@ -57,7 +57,7 @@ def generate(rseed, tier, idx):
     fr = stream(rseed, "faults")
     o = stream(rseed, "order")
     settings = _settings(g)
-    env = {"cwd": e.choice(("cwd", "cwd", "tree", "tree/sub")), "tty": e.random() < 0.3, "argform": e.choice(("abs", "abs", "rel"))}
+    env = {"cwd": e.choice(("cwd", "cwd", "tree", "tree/sub")), "tty": e.random() < 0.3, "argform": e.choice(("abs", "abs", "rel", "noarg"))}
     feats_pool = [f for f in C09_FEATURES if g.random() < (0.2 if f == "star-hack" else 0.7)]
     nfiles = g.choice((1, 1, 2, 2, 3, 4))
     tree = {}
@@ -111,10 +111,10 @@ def generate(rseed, tier, idx):
     plans = []
     outs = ["tree/" + r[:-4] + "_cm.css" for r in inputs]
     for _ in range(fr.choice((1, 2, 3))):
-        kind = fr.choice(("eacces-out", "enospc-out", "eacces-report", "enospc-report", "eacces-in", "eio-in"))
+        kind = fr.choice(("eacces-out", "enospc-out", "eacces-report", "enospc-report", "eacces-in", "eio-in", "eio-close-out"))
         if kind.endswith("-out"):
             p = fr.choice(outs)
-            what = "eacces" if kind.startswith("eacces") else "enospc@%d" % fr.choice((0, 1, 7, 40, 200))
+            what = "eacces" if kind.startswith("eacces") else ("eio-close" if kind.startswith("eio-close") else "enospc@%d" % fr.choice((0, 1, 7, 40, 200)))
             plans.append({"kind": kind, "faults": [{"path": p, "mode": "w", "n": 1, "what": what}]})
         elif kind.endswith("-report"):
             p = os.path.normpath(os.path.join(env["cwd"], "cm_colors_report.html"))
@@ -236,6 +236,8 @@ def execute(trace):
         bump("dir_invocation" if trace["inv"]["form"] == "dir" else "file_invocation")
         if cwd_rel != "cwd":
             bump("cwd_is_tree")
+        if res["args"] and not res["args"][0].startswith(("<SBX>", ".", "tree", "/")) or not res["args"]:
+            bump("noarg_invocation")
         if any(v.get("cmname") for v in trace["tree"].values()):
             bump("cm_named_stylesheet_as_file_argument" if trace["inv"]["target"].endswith("_cm.css") else "cm_named_stylesheet_as_bystander")
         bump("bystanders_checked", len([k for k in before if k not in allowed["out"] and k not in allowed["inputs"]]))
